@@ -89,6 +89,19 @@ def gen(tier, rng):
                         cases.append(rz.resize_case(pt, sw, sh, dw, dh, alg=alg, flt=flt, m=m, alpha=rz.pick(n, 204, [True, False, False, False]), box=box, Q=1, cpu=rz.pick(n, 120, rz.CPUS),
                                                     src_c={"g": "rand", "seed": n}, src_lay=lay_with_guard(slay, 1), dst_lay=lay_with_guard(dlay, 1),
                                                     api="typed" if typed else "dyn", log=("dst",), chk=chk, g=g, sent=sent))
+    # images large enough for the rayon layer to cut both passes into bands, written into views whose left differs from top
+    for pt in ("U8", "U8x4", "U16x3", "F32", "U16x2", "I32"):
+        for (sw, sh, dw, dh, box) in ((60, 50, 40, 30, None), (50, 64, 50, 40, None), (64, 40, 44, 40, (3, 0, 50, 40))):
+            n += 1
+            g += 1
+            typed = rz.pick(n, 208, [False, True])
+            dlay = {"k": "typed_crop_mut" if typed else "crop_mut", "pad": [3, 1, 2, 2]}
+            slay = {"k": "typed_ref"} if typed else {"k": "image_ref"}
+            for rep, sent in enumerate((0x4141 + n, 0x8383 + 5 * n)):
+                chk = ["pipeline", "ret_ok", "outside", "srcsame"] + (["memo_exact"] if rep else [])
+                cases.append(rz.resize_case(pt, sw, sh, dw, dh, alg="conv", flt=rz.pick(n, 209, ["Bilinear", "Lanczos3"]), alpha=False, box=box, Q=1,
+                                            cpu=rz.pick(n, 210, rz.CPUS), src_c={"g": "rand", "seed": n}, src_lay=lay_with_guard(slay, 1),
+                                            dst_lay=lay_with_guard(dlay, 1), api="typed" if typed else "dyn", threads=4, log=("dst",), chk=chk, g=g, sent=sent))
     # thorough: seeded random calls through random container pairs
     if tier != "quick":
         for i in range(30000):
